@@ -144,7 +144,7 @@ pub fn build(spec: &BlindSpec) -> Flow {
         let prevout = OutPoint::new(gen::txid(&mut p), p.below(4) as u32);
         let mut txin = TxIn { previous_output: prevout, ..Default::default() };
         // a peg-in input now and then (through from_txin its flag bit travels in the stored index, next to the issuance bit)
-        if spec.via_from_tx && p.chance(1, 4) {
+        if spec.via_from_tx && p.chance(1, 2) {
             txin.is_pegin = true;
         }
         let issue = spec.issuance && p.chance(1, 2);
